@@ -68,12 +68,22 @@ def lookup(eng, call, k, target):
 def default(eng, call, k, args, target):
     name = call["norm_names"][0] if call.get("norm_names") else norm(k["name"])
     eng.unmodelled[name] = eng.unmodelled.get(name, 0) + 1
-    res = mk("ext", name, *args)
+    # the result (and what is written through &mut arguments) may depend on the VALUES behind pointer arguments
+    argv = []
+    for a in args:
+        v = None
+        if a.op == "ref":
+            try:
+                v = deref_value(eng, call["state"], a)
+            except Exception:
+                v = None
+        argv.append(v if v is not None and v.op != "undef" else a)
+    res = mk("ext", name, *argv)
     # havoc &mut arguments
     t = call["term"]
     for i, a in enumerate(args):
         if a.op == "ref" and _is_mut_arg(call, i):
-            eng.assign_through(call, a, mk("extmut", name, i, *args))
+            eng.assign_through(call, a, mk("extmut", name, i, *argv))
     if t["target"] < 0:
         return None
     return res
@@ -151,12 +161,21 @@ def m_is_empty(eng, call, args):
        "std::vec::Vec::<T, A>::as_mut_slice", "std::str::<impl str>::as_bytes", "std::string::String::as_bytes",
        "std::convert::AsRef::as_ref", "std::convert::AsMut::as_mut", "std::borrow::Borrow::borrow",
        "std::string::String::as_str", "std::slice::<impl [T]>::as_ref",
+       "std::array::<impl [T; N]>::as_slice", "std::array::<impl [T; N]>::as_mut_slice",
+       "std::slice::<impl [T]>::as_mut", "std::vec::Vec::<T, A>::as_ref", "std::vec::Vec::<T, A>::as_mut",
        "curve25519_dalek::ristretto::CompressedRistretto::as_bytes", "std::option::Option::<T>::as_deref",
+
        "bitvec::vec::BitVec::<T, O>::as_raw_slice", "std::hint::must_use",
        "wasm_bindgen::__rt::ensure_ref_unwind_safe", "wasm_bindgen::__rt::ensure_unwind_safe")
 def m_view(eng, call, args):
     """pointer-preserving views: the result designates the same storage / value as the argument"""
     return args[0]
+
+
+@model("curve25519_dalek::ristretto::CompressedRistretto::to_bytes")
+def m_to_bytes_value(eng, call, args):
+    """an owned copy of the 32 encoded bytes: the value behind the receiver"""
+    return val(eng, call, args[0]) if args[0].op in ("ref", "refv", "refo", "phi") else args[0]
 
 
 @model("bitvec::slice::BitSlice::<T, O>::to_bitvec",
@@ -242,7 +261,13 @@ def m_concat(eng, call, args):
     if v.op == "agg" and v.args[0] == "array":
         out = None
         for part in v.args[1:]:
-            out = part if out is None else mk("append", out, part)
+            if part.op in ("ref", "refv", "refo"):
+                part = val(eng, call, part)          # [a, &b, c].concat() over slices / references
+            if out is None:
+                # [acc, x].concat() extends the vector value `acc`; [a, b].concat() over plain byte strings builds a new one
+                out = part if part.op in ("acc", "phi", "append", "push", "vec_new") else mk("append", mk("vec_new"), part)
+            else:
+                out = mk("append", out, part)
         return out if out is not None else mk("vec_new")
     return mk("concat", v)
 
@@ -396,6 +421,8 @@ def m_into(eng, call, args):
             return eng.inline(call, g, args, [])
         if "subtle::Choice" in src[0] and dst[0] == "bool":
             return mk("choice_bool", args[0])
+        if "subtle::CtOption" in src[0] and dst[0].startswith("std::option::Option"):
+            return ct_to_option(args[0])         # `.into()` spelling of Option::from(ct_option)
         if "Box<dyn" in dst[0]:
             return mk("boxed_err", args[0])
     a = args[0]
@@ -648,6 +675,24 @@ def m_opt_and_then(eng, call, args):
     return eng.join_values(("andthen", call["site"]), inc)
 
 
+@model("std::option::Option::<T>::zip")
+def m_opt_zip(eng, call, args):
+    """a.zip(b): Some((x, y)) iff both are Some"""
+    a = as_enum(args[0], "std::option::Option", OPT)
+    b = as_enum(args[1], "std::option::Option", OPT)
+    sa = [x for x in a.args[1] if x[0] == 1]
+    sb = [x for x in b.args[1] if x[0] == 1]
+    alts = []
+    na = [x for x in a.args[1] if x[0] == 0]
+    nb = [x for x in b.args[1] if x[0] == 0]
+    if na or nb:
+        alts.append((0, "None", (), frozenset(), frozenset().union(*[x[4] for x in na + nb]) if (na or nb) else frozenset()))
+    if sa and sb:
+        pair = mk("agg", "tuple", sa[0][2][0], sb[0][2][0])
+        alts.append((1, "Some", (pair,), frozenset(sa[0][3]) | frozenset(sb[0][3]), frozenset()))
+    return mk("enum", "std::option::Option", tuple(alts))
+
+
 @model("std::option::Option::<T>::ok_or_else")
 def m_ok_or_else(eng, call, args):
     v = as_enum(args[0], "std::option::Option", OPT)
@@ -731,6 +776,10 @@ def elem_of(eng, call, it):
             # array literal: keep the elements apart (each is absorbed / used on its own)
             e = src.args[1] if len(src.args) == 2 else mk("oneof", *src.args[1:])
         return mk("refv", e) if byref else e
+    if op == "iter_mut":
+        ptr, n, site = it.args
+        pos = mk("range_elem", Int(0, "usize"), n, site)
+        return mk("ref", ptr.args[0], ptr.args[1] + (("i", pos),))
     if op == "range_iter":
         return mk("range_elem", it.args[0], it.args[1], it.args[2])
     if op == "agg" and it.args[0].endswith("ops::Range") and len(it.args) == 3:
@@ -742,9 +791,16 @@ def elem_of(eng, call, it):
         if op == "cloned_iter" and e.op == "refv":
             return e.args[0]
         return e
+    if op == "chained":
+        return mk("chain_elem", elem_of(eng, call, it.args[0]), elem_of(eng, call, it.args[1]), it)
     if op == "zipped":
         return mk("agg", "tuple", elem_of(eng, call, it.args[0]), elem_of(eng, call, it.args[1]))
     if op == "enumerated":
+        if it.args[0].op == "iter_mut":
+            # (i, &mut a[i]) with the SAME position i
+            ptr, n, site = it.args[0].args
+            pos = mk("range_elem", Int(0, "usize"), n, site)
+            return mk("agg", "tuple", pos, mk("ref", ptr.args[0], ptr.args[1] + (("i", pos),)))
         return mk("agg", "tuple", mk("range_elem", Int(0), mk("len_iter", it.args[0]), "enum"), elem_of(eng, call, it.args[0]))
     return mk("elem", it)
 
@@ -769,6 +825,11 @@ def range_facts(e):
 @model("std::slice::<impl [T]>::iter", "std::slice::<impl [T]>::iter_mut", "std::vec::Vec::<T, A>::iter")
 def m_iter(eng, call, args):
     # the site distinguishes the elements of different (e.g. nested) iterations over one collection
+    if any(x.endswith("::iter_mut") for x in call.get("norm_names", [])) and args[0].op == "ref":
+        # mutable iteration over a known location: the elements are pointers into it, so writes through them are
+        # (weak, indexed) updates of that location
+        v = val(eng, call, args[0])
+        return mk("iter_mut", args[0], eng.length(call["state"], v), call["site"])
     return mk("iter", val(eng, call, args[0]), True, call["site"])
 
 
@@ -780,7 +841,7 @@ def m_values(eng, call, args):
 @model("std::iter::IntoIterator::into_iter", "rayon::iter::IntoParallelIterator::into_par_iter")
 def m_into_iter(eng, call, args):
     a = args[0]
-    if a.op in ("iter", "range_iter", "mapped", "filtered", "cloned_iter", "adapted", "enumerated"):
+    if a.op in ("iter", "iter_mut", "range_iter", "mapped", "filtered", "cloned_iter", "adapted", "enumerated", "chained", "flat_mapped", "zipped"):
         return a
     if a.op == "agg" and a.args[0].endswith("ops::Range"):
         return mk("range_iter", a.args[1], a.args[2], call["site"])
@@ -805,6 +866,22 @@ def m_adapt(eng, call, args):
     if args[0].op == "range_iter" and meth == "rev":
         return args[0]
     return mk("adapted", args[0], meth, *args[1:])
+
+
+@model("std::iter::ExactSizeIterator::len")
+def m_exact_len(eng, call, args):
+    it = val(eng, call, args[0]) if args[0].op in ("ref", "refv", "refo") else args[0]
+    return mk("len_iter", it)
+
+
+@model("std::iter::once")
+def m_once(eng, call, args):
+    return mk("iter", mk("agg", "array", args[0]), False, call["site"])      # a one-element sequence
+
+
+@model("std::iter::Iterator::chain")
+def m_chain(eng, call, args):
+    return mk("chained", args[0], args[1])          # all elements of the first, then all elements of the second
 
 
 @model("std::iter::repeat_with")
@@ -910,6 +987,41 @@ def m_fold(eng, call, args):
     return mk("fold", init, r, it, acc)
 
 
+@model("std::iter::Iterator::sum", "std::iter::Iterator::product")
+def m_sum_product(eng, call, args):
+    """sum() / product(): the fold with + from the additive identity, resp. * from the multiplicative identity (for the
+    field type the derive generates exactly these folds; for integers the identities are 0 / 1)"""
+    it = args[0]
+    e = elem_of(eng, call, it)
+    if e.op == "refv":
+        e = e.args[0]
+    acc = mk("acc", call["site"])
+    meth = call["norm_names"][-1].split("::")[-1]
+    subs = call.get("substs") or []
+    ty = subs[-1][0] if subs else "?"
+    is_int = ty in ("u8", "u16", "u32", "u64", "u128", "usize", "i8", "i16", "i32", "i64", "i128", "isize")
+    if meth == "sum":
+        init = Int(0, ty) if is_int else mk("constdef", "ff::Field::ZERO", ty)
+        body = binop("Add", acc, e, ty) if is_int else mk("alg_add", acc, e)
+    else:
+        init = Int(1, ty) if is_int else mk("constdef", "ff::Field::ONE", ty)
+        body = binop("Mul", acc, e, ty) if is_int else mk("alg_mul", acc, e)
+    return mk("fold", init, body, it, acc)
+
+
+@model("std::iter::Iterator::flat_map")
+def m_flat_map(eng, call, args):
+    it, clo = args
+    e = elem_of(eng, call, it)
+    amb = set(iter_facts(it))
+    if e.op == "range_elem":
+        amb.update(range_facts(e))
+    r = call_closure(eng, call, clo, [e], ambient=frozenset(amb), tag="#map")
+    if r is None:
+        r = mk("never")
+    return mk("flat_mapped", it, r)       # the concatenation of r over the elements of it
+
+
 @model("std::iter::Iterator::any", "std::iter::Iterator::all", "std::iter::Iterator::position",
        "std::iter::Iterator::find", "std::iter::Iterator::for_each")
 def m_pred_consumer(eng, call, args):
@@ -933,6 +1045,16 @@ def m_pred_consumer(eng, call, args):
     if meth == "find":
         return two_way("std::option::Option", [(0, "None", [], []), (1, "Some", [e], [(r, "eq", 1)])])
     return mk("unit")
+
+
+@model("std::slice::<impl [T]>::contains", "std::vec::Vec::<T, A>::contains")
+def m_slice_contains(eng, call, args):
+    """v.contains(x) == v.iter().any(|e| e == x)"""
+    v = val(eng, call, args[0])
+    x = val(eng, call, args[1]) if args[1].op in ("ref", "refv", "refo") else args[1]
+    it = mk("iter", v, True, call["site"])
+    e = mk("elem", v, call["site"])
+    return mk("iter_any", it, mk("eq", e, x))
 
 
 @model("std::iter::Iterator::collect", "rayon::iter::ParallelIterator::collect")
